@@ -5,10 +5,22 @@ from tickit.adapters.epics import EpicsAdapter
 from tickit.adapters.io.epics_io import EpicsIo
 from softioc import builder
 
-spec = json.loads(sys.argv[1])      # [[name, has_db_file], ...]
+from softioc import softioc
+
+spec = json.loads(sys.argv[1])      # [[name, has_db_file], ...]; has_db_file: false | true (a file of its own) | "shared" (one file for all such)
 started = []
 epics._build_and_run_ioc = lambda: started.append(1)
 out = {}
+loaded = []                         # what was loaded into the IOC from database files: (substitutions, record lines)
+_real_load = softioc.dbLoadDatabase
+
+
+def _load(path, *a, **k):
+    loaded.append([k.get("substitutions"), sorted(l.strip() for l in open(path) if l.lstrip().startswith("record"))])
+    return _real_load(path, *a, **k)
+
+
+softioc.dbLoadDatabase = _load
 
 class A(EpicsAdapter):
     def __init__(self, name):
@@ -19,14 +31,19 @@ class A(EpicsAdapter):
 
 async def main():
     ios = []
+    shared = None
     for name, has_db in spec:
         db = None
-        if has_db:
+        if has_db == "shared" and shared is not None:
+            db = shared
+        elif has_db:
             f = tempfile.NamedTemporaryFile("w", suffix=".db", delete=False)
             f.write('record(ai, "$(device):FROMDB") {\n  field(DTYP, "Soft Channel")\n  field(VAL, "1")\n}\n'); f.close(); db = f.name
+            if has_db == "shared":
+                shared = db
         ios.append((EpicsIo(name, db), A(name)))
     async def ri(): pass
     res = await asyncio.gather(*[io.setup(a, ri) for io, a in ios], return_exceptions=True)
     return [repr(r) for r in res if isinstance(r, Exception)]
 errs = asyncio.run(main())
-print(json.dumps(dict(records=out, started=len(started), errors=errs)))
+print(json.dumps(dict(records=out, started=len(started), errors=errs, loaded=sorted(loaded, key=repr))))
